@@ -69,7 +69,37 @@ Key line_key(const std::string &l)
 				k.kind = 2;
 				k.v += atoi(l.substr(i + 11, 2).c_str()) * 3600 + atoi(l.substr(i + 14, 2).c_str()) * 60 + atoi(l.substr(i + 17, 2).c_str());
 				k.raw = l.substr(i, 19);
+				/* a UTC offset belongs to the value: the instant is what is compared */
+				if (i + 19 < n && l[i + 19] == 'Z') {
+					k.raw = l.substr(i, 20);
+				} else if (i + 25 <= n && (l[i + 19] == '+' || l[i + 19] == '-') && l[i + 22] == ':') {
+					int off = atoi(l.substr(i + 20, 2).c_str()) * 3600 + atoi(l.substr(i + 23, 2).c_str()) * 60;
+					k.v -= l[i + 19] == '-' ? -off : off;
+					k.raw = l.substr(i, 25);
+				}
 			}
+			return k;
+		}
+		if (i + 8 <= n && (i + 8 == n || l[i + 8] == ' ') && std::all_of(l.begin() + i, l.begin() + i + 8, isdig)) {
+			/* -i %Y%m%d */
+			int y = atoi(l.substr(i, 4).c_str()), m = atoi(l.substr(i + 4, 2).c_str()), d = atoi(l.substr(i + 6, 2).c_str());
+			if (m < 1 || m > 12 || d < 1 || d > (int)model::mdays(y, m))
+				return Key();
+			k.dated = true;
+			k.kind = 1;
+			k.v = model::days_from_civil(y, (unsigned)m, (unsigned)d) * 86400;
+			k.raw = l.substr(i, 8);
+			return k;
+		}
+		if (i + 10 <= n && l[i + 2] == '/' && l[i + 5] == '/' && (i + 10 == n || l[i + 10] == ' ')) {
+			/* -i %d/%m/%Y */
+			int d = atoi(l.substr(i, 2).c_str()), m = atoi(l.substr(i + 3, 2).c_str()), y = atoi(l.substr(i + 6, 4).c_str());
+			if (m < 1 || m > 12 || d < 1 || d > (int)model::mdays(y, m))
+				return Key();
+			k.dated = true;
+			k.kind = 1;
+			k.v = model::days_from_civil(y, (unsigned)m, (unsigned)d) * 86400;
+			k.raw = l.substr(i, 10);
 			return k;
 		}
 		if (i + 8 <= n && l[i + 2] == ':' && l[i + 5] == ':' && isdig(l[i + 1]) && isdig(l[i + 3]) && isdig(l[i + 4]) && isdig(l[i + 6]) && isdig(l[i + 7])) {
@@ -145,9 +175,35 @@ struct SortEngine : Engine {
 			p.argv.push_back("%Y-%m-%c-%w");
 			p.par["ymcw"] = "1";
 		}
+		/* input formats: one real format among 0..39 others; the needle table is sized from their number */
+		int ifk = 0;	/* 0 default parser, 1 %Y%m%d, 2 %d/%m/%Y */
+		if (!ymcw && r.chance(1, 5)) {
+			ifk = (int)r.range(1, 2);
+			kind = 1;
+			static const char *filler[] = {"q%Yq%mq%d", "%Y_%m_%d", "%d~%m~%Y", "<%F>", "#%j#%Y", "%Y:%m:%d", "%d|%m|%Y", "%m;%d;%Y", "%Y=%j", "%Yx%mx%d",
+						       "%b/%d/%Y", "%B %Y %d", "%G w%V %u", "%Y+%m+%d", "%d^%m^%Y", "{%F}", "%Y %d %b", "%d*%m*%Y", "%Y&%j", "%m'%d'%Y"};
+			static const size_t counts[] = {1, 1, 2, 3, 7, 8, 9, 15, 16, 17, 23, 24, 25, 31, 32, 33, 40};
+			size_t want = counts[r.below(sizeof(counts) / sizeof(*counts))];
+			size_t at = r.below(want);
+			for (size_t k2 = 0, f = 0; k2 < want; k2++) {
+				p.argv.push_back("-i");
+				if (k2 == at)
+					p.argv.push_back(ifk == 1 ? "%Y%m%d" : "%d/%m/%Y");
+				else {
+					p.argv.push_back(std::string(filler[f % 20]) + (f >= 20 ? "z" : ""));
+					f++;
+				}
+			}
+			p.par["ifmt"] = ifk == 1 ? "%Y%m%d" : "%d/%m/%Y";
+			p.par["nifmt"] = std::to_string(want);
+		}
+		/* mostly tiny lines: several complete lines fit into one read() behind the line that fills the window */
+		bool tiny = r.chance(1, SIM_NL <= 64 ? 4 : 12);
 		size_t n;
 		unsigned vk = (unsigned)r.below(100);
-		if (vk < 60)
+		if (tiny)
+			n = SIM_NL <= 64 ? (size_t)r.range(SIM_NL - 1, 3 * SIM_NL + 2) : (size_t)r.range(2, 40);
+		else if (vk < 60)
 			n = (size_t)r.range(0, 12);
 		else if (vk < 90)
 			n = (size_t)r.range(13, 80);
@@ -162,6 +218,14 @@ struct SortEngine : Engine {
 			if (!pool.empty() && r.chance(1, 8)) {
 				l = pool[r.below(pool.size())];	/* duplicate line */
 			} else {
+				if (tiny && r.chance(3, 4)) {
+					l = lit(r, (size_t)r.below(3));
+					in += l;
+					if (i + 1 == n && r.chance(1, 3))
+						break;
+					in += "\n";
+					continue;
+				}
 				if (r.chance(2, 3))
 					l = lit(r, (size_t)r.below(12)) + " ";
 				int k = kind == 4 ? (int)r.range(1, 3) : kind;
@@ -171,10 +235,19 @@ struct SortEngine : Engine {
 					b[0] = 0;	/* no date on this line */
 				else if (k == 5)
 					snprintf(b, sizeof(b), "%04d-%02d-%02d-%02d", y0, 1 + (int)r.below(2), (int)r.range(1, 4), (int)r.range(1, 7));
+				else if (k == 1 && ifk == 1)
+					snprintf(b, sizeof(b), "%04d%02d%02d", y, m, d);
+				else if (k == 1 && ifk == 2)
+					snprintf(b, sizeof(b), "%02d/%02d/%04d", d, m, y);
 				else if (k == 1)
 					snprintf(b, sizeof(b), "%04d-%02d-%02d", y, m, d);
-				else if (k == 2)
-					snprintf(b, sizeof(b), "%04d-%02d-%02dT%02d:%02d:%02d", y, m, r.chance(1, 2) ? 1 : d, (int)r.below(24), (int)r.below(60), (int)r.below(60));
+				else if (k == 2) {
+					/* now and then with a UTC offset: the same day, instants an hour or less apart */
+					static const char *offs[] = {"Z", "+00:00", "+01:00", "-05:00", "+05:30", "-03:30", "+12:45", "-09:30", "+02:00", "-00:30", "+00:45", "-02:30"};
+					int dd = r.chance(1, 2) ? 1 : d;
+					snprintf(b, sizeof(b), "%04d-%02d-%02dT%02d:%02d:%02d%s", y, m, dd, (int)r.below(24), (int)r.below(60), (int)r.below(60),
+						 r.chance(1, 3) ? offs[r.below(sizeof(offs) / sizeof(*offs))] : "");
+				}
 				else
 					snprintf(b, sizeof(b), "%02d:%02d:%02d", (int)r.below(24), (int)r.below(60), (int)r.below(60));
 				l += b;
@@ -234,7 +307,7 @@ struct SortEngine : Engine {
 
 	int dtest(const Plan &base, const std::string &a, const char *op, const std::string &b, Stats &st)
 	{
-		std::string key = a + op + b + (base.par.count("ymcw") ? "#ymcw" : "");
+		std::string key = a + op + b + (base.par.count("ymcw") ? "#ymcw" : "") + (base.par.count("ifmt") ? "#" + base.par.at("ifmt") : "");
 		auto it = dtest_memo.find(key);
 		if (it != dtest_memo.end()) {
 			st.mix_value(it->second, key);
@@ -246,6 +319,8 @@ struct SortEngine : Engine {
 		q.argv = {"dtest", a, op, b};
 		if (base.par.count("ymcw"))
 			q.argv.insert(q.argv.begin() + 1, {"-i", "%Y-%m-%c-%w"});
+		if (base.par.count("ifmt"))
+			q.argv.insert(q.argv.begin() + 1, {"-i", base.par.at("ifmt")});
 		RunResult r = run_plan(q);
 		st.add_ref(r);
 		int rc = r.crashed() ? -1 : r.exit_code;
@@ -295,6 +370,8 @@ struct SortEngine : Engine {
 				st.named["reach_started_without_stdin"]++;
 			if (p.par.count("ymcw"))
 				st.named["plans_with_month_count_weekday_dates"]++;
+			if (p.par.count("nifmt"))
+				st.named[p.ipar("nifmt") >= 16 ? "plans_with_16_or_more_input_formats" : "plans_with_input_formats"]++;
 			st.named["reach_vfork"] += r.probes[P_VFORK];
 			st.named["reach_exec"] += r.probes[P_EXEC];
 			st.named["reach_waitpid"] += r.probes[P_WAITPID];
